@@ -151,13 +151,16 @@ func (e *Executor) Run(keys state.Keys, f func() error) {
 		readers: make(map[int]*task),
 	}
 
-	// Add maximum number of dependencies to ensure we don't execute the task
-	// before we are finished enqueuing all dependencies.
+	// Add more than the maximum number of dependencies to ensure we don't
+	// execute the task before we are finished enqueuing all dependencies (one
+	// more, so that a task with exactly [maxDependencies] dependencies that
+	// have all executed already is not marked executable by the last of them
+	// and then a second time below).
 	//
 	// We can have more than 1 dependency per key (in the case that there
 	// are many readers for a single key), so we set this higher than we ever
 	// expect to see.
-	t.dependencies.Add(e.maxDependencies)
+	t.dependencies.Add(e.maxDependencies + 1)
 
 	// Record dependencies
 	dependencies := set.NewSet[int](len(keys))
@@ -207,7 +210,7 @@ func (e *Executor) Run(keys state.Keys, f func() error) {
 	}
 
 	// Adjust dependency traker and execute if necessary
-	difference := e.maxDependencies - int64(dependencies.Len())
+	difference := e.maxDependencies + 1 - int64(dependencies.Len())
 	if t.dependencies.Add(-difference) > 0 {
 		if e.metrics != nil {
 			e.metrics.RecordBlocked()
